@@ -11,7 +11,6 @@ macro_rules! c { ($v:ident, $q:expr, $g:expr, $t:ty, $m:ty, $tr:ty) => { $v.push
 
 fn cfgs() -> Vec<Entry> {
     let mut v: Vec<Entry> = Vec::new();
-    #[cfg(feature = "alloc")] { c!(v, false,"general",Z,Heap,dyn Cloneable); }
     #[cfg(feature = "alloc")] { c!(v, false,"general",ZA64,Heap,dyn Cloneable); }
     #[cfg(feature = "alloc")] { c!(v, false,"general",B1,Heap,dyn Cloneable); }
     #[cfg(feature = "alloc")] { c!(v, false,"general",H2D,Heap,dyn Cloneable); }
